@@ -37,19 +37,19 @@ def find_stages(an: Analysis):
     """The six stage functions of the line-table codec by their place in the two drivers' call chains:
     decode driver (reads co_lnotab / co_linetable): bytes -> items -> collapsed items -> mapping; encode driver: the reverse."""
     m = an.prog.module("code_data._line_mapping")
-    dec = enc = None
+    dec = enc = dec_f = enc_f = None
     for f in m.functions.values():
         r = _call_chain(an, m, f)
         if not r or len(r[0]) != 3:
             continue
         chain, inner = r
         if any(isinstance(n, ast.Attribute) and n.attr in ("co_lnotab", "co_linetable") for n in ast.walk(inner)):
-            dec = chain
+            dec, dec_f = chain, f
         elif any(isinstance(n, ast.Name) and n.id in f.params for n in ast.walk(inner)):
-            enc = chain
+            enc, enc_f = chain, f
     if dec is None or enc is None:
         raise AnalysisError(f"line-table codec drivers not recognised (decode chain={dec and [f.name for f in dec]}, encode chain={enc and [f.name for f in enc]})")
-    return {"b2i": dec[0], "collapse": dec[1], "to_map": dec[2], "from_map": enc[0], "expand": enc[1], "i2b": enc[2]}
+    return {"b2i": dec[0], "collapse": dec[1], "to_map": dec[2], "from_map": enc[0], "expand": enc[1], "i2b": enc[2], "decode": dec_f, "encode": enc_f}
 
 
 def find_codec(an: Analysis):
@@ -84,6 +84,8 @@ def run(an: Analysis, rep):
     rep.rule("R10.3", "-128 <-> None sentinel applied iff linetable", 4)
     rep.rule("R10.4", "byte pairing (unsigned, signed), stride 2", 4)
     format_rules(an, rep)
+    from . import line_fold
+    rep.run(line_fold.fold_rule, an, rep)
     from .common import SharedRules, purity, truthiness_rule
     from . import c01
     rep.run(purity, an, rep, "R10.P", ["from_code", "to_code"])
@@ -95,6 +97,10 @@ def run(an: Analysis, rep):
     rep.run(c01.r017, an, SharedRules(rep, "R10.K", "the mapping handed to the table builder has a key for every code unit it sizes entries from (shared with C01's R01.7): 're-encoding the decoded mapping reproduces the table byte for byte'"))
     rep.run(c01.r015_every_line, an, SharedRules(rep, "R10.O", "the shift by the first line number covers every line of the mapping, the trailing entry included (shared with C01's R01.5)"))
     rep.run(c01.r015_order, an, SharedRules(rep, "R10.O", "the shift by the first line number covers every line of the mapping, the trailing entry included (shared with C01's R01.5)"))
+    from . import c03 as _c03a, c11 as _c11a
+    rep.run(_c03a.r03y, an, SharedRules(rep, "R10.A", "the encoder rebuilds the mapping the table is written from with every code unit at its instruction's line and the redundant entries at the "
+                                                      "instruction's first code unit (shared with C03's R03.Y): 're-encoding the decoded mapping reproduces the table byte for byte'"))
+    rep.run(_c11a.r115, an, SharedRules(rep, "R10.E", "the entries CPython wrote behind the last instruction are kept with their line and their redundant pieces (shared with C11's R11.5)"))
     rep.run(truthiness_rule, an, rep, "R10.T", ["from_code", "to_code"], [("Instruction", "line_number"), ("AdditionalLine", "line")])
     rep.assumptions += ["format limits as in Objects/lnotab_notes.txt (reference/contracts.py LINE_LIMITS)"]
     rep.extra["not_decided"] = "table arithmetic over integer sequences (cursor logic of collapse_items on merged entries, loop bounds computed from sums, zero-width entries)"
